@@ -1,7 +1,9 @@
 (* C06/Model.v — executable model of the game lifecycle coroutine of
-   mpf/modes/game/code/game.py (Game._run and its callees), WITH the two proposed fixes
-   fixes/C06-late-player-add.patch and fixes/C06-end-game-before-first-player.patch applied
-   (the model is parametrised by a [variant]; the unfixed variant is refuted in Lemmas.v).
+   mpf/modes/game/code/game.py (Game._run and its callees), WITH the proposed fixes
+   fixes/C06-late-player-add.patch, fixes/C06-end-game-before-first-player.patch and
+   fixes/C06-first-player-after-held-add.patch applied (the model is parametrised by a [variant]; the unfixed
+   variants are refuted in Lemmas.v / Turns.v).  fixes/C06-ball-start-before-player-added.patch repairs a crash in
+   mode_controller._ball_starting that the model does not contain (the model has no exceptions).
 
    The coroutine is a program-counter machine.  Its suspension points are the awaits:
      AtEv k      suspended in post_async / post_queue_async of lifecycle event k
